@@ -308,3 +308,73 @@ def run(rep, programs):
     # after a drain no reservation is left to be counted a second time: drain visits every slot
     from props import c10
     c10.r_drain_total(rep, prog)
+
+
+def r_locals_layout(rep, prog):
+    """The per-class slot arrays are carved out of one buffer: array k starts where arrays 0..k-1 end. If two arrays overlap, one
+    reservation is present in two classes and Locals::stats counts its tree twice."""
+    rule = "R-LOCALS-LAYOUT"
+    rep.rule(rule, "Locals::new: the offset handed to OffsetSlice::new is a running sum that starts at 0 and advances by "
+                   "size_of_slice::<Local>(count) of the very slice just placed")
+    fn = "llfree::local::Locals::new"
+    b = lib.need_body(prog, fn)
+    rep.saw(fn)
+    tm = T.Terms(b, prog)
+    sites = lib.find_calls(b, "llfree::util::OffsetSlice::new")
+    if not sites:
+        rep.check(True, rule, "Locals::new|running-offset", "undecided: no OffsetSlice::new (another layout scheme)")
+        rep.note("%s: Locals::new does not use OffsetSlice::new; disjointness of the per-class arrays is undecided" % rule)
+        return
+    for bi, t in sites:
+        off_op, cnt_op = t["args"][0], t["args"][1]
+        cnt = T.canon(tm.operand(cnt_op))
+        good, why = False, ""
+        if off_op["k"] in ("copy", "move") and not (off_op["place"].get("p")):
+            l = off_op["place"]["l"]
+            # follow a plain copy chain back to the accumulator
+            seen = set()
+            while l not in seen:
+                seen.add(l)
+                ds = b.whole_defs(l)
+                if len(ds) == 1 and ds[0][1] != "term":
+                    rv = b.blocks[ds[0][0]]["stmts"][ds[0][1]]["rv"]
+                    if rv["k"] == "use" and rv["op"]["k"] in ("copy", "move") and not rv["op"]["place"].get("p"):
+                        l = rv["op"]["place"]["l"]
+                        continue
+                break
+            ds = b.whole_defs(l)
+            init = step = 0
+            bad = 0
+            for dbi, dsi in ds:
+                if dsi == "term":
+                    bad += 1
+                    continue
+                rv = b.blocks[dbi]["stmts"][dsi]["rv"]
+                tt = T.Terms(b, prog).rvalue(rv)
+                if tt[0] == "c" and tt[1] == 0:
+                    init += 1
+                    continue
+                tt = T.canon(tt)
+                if tt[0] == "bin" and tt[1] == "Add":
+                    parts = [tt[2], tt[3]]
+                    sz = [p for p in parts if p[0] == "call" and p[1] == "llfree::util::size_of_slice"]
+                    acc = [p for p in parts if p[0] == "l"]
+                    if len(sz) == 1 and len(acc) == 1 and sz[0][2] == (cnt,):
+                        step += 1
+                        continue
+                bad += 1
+            good = init == 1 and step == 1 and bad == 0
+            why = "offset has %d initialisations to 0, %d steps by size_of_slice(count), %d other definitions" % (init, step, bad)
+        else:
+            why = "the offset is %s, not a running sum" % T.show(tm.operand(off_op))[:120]
+        rep.check(good, rule, "Locals::new|running-offset", "offset = sum of the sizes of the arrays placed before",
+                  "the start of a class's slot array is not the end of the arrays placed before it (%s): arrays of classes with "
+                  "different slot counts overlap, one reservation appears under two classes" % why, t["span"])
+
+
+_run_c14 = run
+
+
+def run(rep, programs):  # noqa: F811
+    _run_c14(rep, programs)
+    r_locals_layout(rep, programs["core"])
